@@ -10,7 +10,6 @@ REPO = Path(os.environ.get("VERIF_REPO", "/repo"))
 LEAN = VERIF / "lean"
 HARNESS = VERIF / "harness"
 EXTRACT = VERIF / "extract"
-MODEL_BIN = LEAN / ".lake" / "build" / "bin" / "csvq-model"
 ALLOWED_AXIOMS = {"propext", "Classical.choice", "Quot.sound"}
 FORBIDDEN = re.compile(r"\b(sorry|admit|native_decide|bv_decide|implemented_by)\b|^\s*axiom\s|\bunsafe\s|maxHeartbeats\s+0")
 
@@ -64,7 +63,7 @@ class Run:
         self.assumptions = []
         self.obligations = 0
         self.discharged = 0
-        self.harness_bin = None
+        self.harness_bins = {}
         self.notes = []
 
     def cleanup(self):
@@ -111,7 +110,7 @@ class Run:
     def obligations_for(self, modules):
         """build the Props modules, count obligations, audit axioms.  Returns True if all discharged."""
         all_ok = True
-        rc, txt = self.lake_build(modules + ["csvq-model"])
+        rc, txt = self.lake_build(modules + ["model-" + self.pid.lower()] if (LEAN / "Drivers" / (self.pid + ".lean")).exists() else modules)
         build_failed_modules = set()
         if rc != 0:
             all_ok = False
@@ -195,17 +194,25 @@ class Run:
         return rc == 0
 
     # ---------------- 3. correspondence ----------------
-    def build_harness(self, tags="verif"):
-        if self.harness_bin:
-            return self.harness_bin
+    def build_harness(self, name, tags="verif", race=False):
+        """build /verif/harness/cmd/<name> against /repo's working tree"""
+        key = name + ("-race" if race else "")
+        if key in self.harness_bins:
+            return self.harness_bins[key]
+        env = dict(GOENV)
+        cmd = ["go", "build", "-tags", tags]
+        if race:
+            cmd.append("-race")
+            env["CGO_ENABLED"] = "1"
+        out = self.scratch / ("vh-" + key)
         with Lock("harness"):
-            shutil.copyfile(REPO / "go.sum", HARNESS / "go.sum")
-            out = self.scratch / "verifharness"
-            rc, txt = sh(["go", "build", "-tags", tags, "-o", str(out), "."], cwd=str(HARNESS), env=GOENV, timeout=900)
+            if not (HARNESS / "go.sum").exists() or (HARNESS / "go.sum").read_bytes() != (REPO / "go.sum").read_bytes():
+                shutil.copyfile(REPO / "go.sum", HARNESS / "go.sum")
+        rc, txt = sh(cmd + ["-o", str(out), "./cmd/" + name], cwd=str(HARNESS), env=env, timeout=900)
         if rc != 0:
-            self.problems.append(Problem("build", "harness", "the harness no longer builds against /repo (exported API it drives changed):\n" + txt[-3000:]))
+            self.problems.append(Problem("build", "harness:" + name, "the harness no longer builds against /repo (exported API it drives changed):\n" + txt[-3000:]))
             return None
-        self.harness_bin = out
+        self.harness_bins[key] = out
         return out
 
     def build_csvq(self, tags="verif", race=False):
@@ -223,14 +230,16 @@ class Run:
             return None
         return out
 
-    def stream(self, name, n, extra=(), seed_offset=0, timeout=1800):
-        """run one harness stream, then the model on its op lines, and compare line by line"""
-        hb = self.build_harness()
+    def stream(self, name, n, extra=(), seed_offset=0, timeout=1800, model=None, race=False):
+        """run one harness stream (binary cmd/<name>), then the model driver on its op lines, compare line by line"""
+        hb = self.build_harness(name, race=race)
         if not hb:
             return None
-        d = self.scratch / ("s-" + name + ("-%d" % seed_offset if seed_offset else ""))
-        rc, txt = sh([str(hb), name, "-seed", str(self.seed + seed_offset), "-n", str(n), "-out", str(d)] + list(extra),
-                     cwd=str(self.scratch), env=GOENV, timeout=timeout)
+        MODEL_BIN = LEAN / ".lake" / "build" / "bin" / ("model-" + (model or self.pid).lower())
+        tag = name + ("".join(extra)) + ("-%d" % seed_offset if seed_offset else "")
+        d = self.scratch / ("s-" + re.sub(r"[^A-Za-z0-9_.-]", "_", tag))
+        rc, txt = sh([str(hb), "-seed", str(self.seed + seed_offset), "-n", str(n), "-out", str(d)] + list(extra),
+                     cwd=str(self.scratch), env=dict(GOENV, VERIF_SCRATCH=str(self.scratch), VERIF_REPO=str(REPO), VERIF_TIER=self.tier), timeout=timeout)
         if rc != 0:
             self.problems.append(Problem("direct", "harness:" + name, "harness stream crashed (rc=%d):\n%s" % (rc, txt[-3000:]), concrete=False))
             return None
@@ -239,7 +248,7 @@ class Run:
         model_lines = []
         if ops.stat().st_size > 0:
             if not MODEL_BIN.exists():
-                self.problems.append(Problem("build", "csvq-model", "model driver binary missing"))
+                self.problems.append(Problem("build", "model-driver", "model driver binary missing: " + str(MODEL_BIN)))
                 return None
             with open(ops) as fi, open(d / "model.txt", "w") as fo:
                 p = subprocess.run([str(MODEL_BIN)], stdin=fi, stdout=fo, stderr=subprocess.PIPE, timeout=timeout)
@@ -270,7 +279,7 @@ class Run:
                                              signature="law:" + rec.get("law", "?")))
         self.cov["evaluations"] += stats["evaluations"]
         self.cov["distinct_nontrivial"] += stats["distinct_nontrivial"]
-        self.cov["streams"][name + ("+%d" % seed_offset if seed_offset else "")] = {
+        self.cov["streams"][tag] = {
             "evaluations": stats["evaluations"], "distinct_nontrivial": stats["distinct_nontrivial"],
             "model_impl_disagreements": ndiff, "law_failures": len(laws), "distribution": stats.get("stats", {})}
         self.cov["samples"] += stats.get("samples", [])[:4]
